@@ -2,7 +2,7 @@
    requested range.  Only statements, each closed by `exact <lemma>`, Print Assumptions beneath. *)
 From Coq Require Import NArith ZArith List Bool Lia.
 From Common Require Import Outcome.
-From C31 Require Import Gen Model ModelSpec ProofsPlan ProofsStore ProofsServe.
+From C31 Require Import Gen Model ModelSpec ProofsPlan ProofsStore ProofsServe ProofsQuiet.
 Import ListNotations.
 Local Open Scope N_scope.
 
@@ -57,10 +57,27 @@ Theorem C31_serve_by_number_answers : forall s req n seen bb,
 Proof. exact serve_by_number_answers. Qed.
 Print Assumptions C31_serve_by_number_answers.
 
+(* CreateBlockResponse never panics: on every well-formed store every request (any start, any
+   direction byte, any max including 0 and values above 128, any field byte, any repeat count) is
+   either served or refused with an error; the `make([]..., (end-start)+1)` of the by-number
+   handlers is never reached with end+1 < start, and the model never runs out of fuel. *)
+Theorem C31_serve_never_panics : forall s req seen,
+  indexed s -> wf_store_b s = true ->
+  serve s req seen <> Panic /\ serve s req seen <> OutOfFuel.
+Proof. exact serve_never_panics. Qed.
+Print Assumptions C31_serve_never_panics.
+
 (* the stores the driver builds are indexed *)
 Theorem C31_mkstore_indexed : forall l best, indexed (mkstore l best).
 Proof. intros. reflexivity. Qed.
 Print Assumptions C31_mkstore_indexed.
+
+(* the literal constants of the Go source the proofs and examples rely on, re-read from
+   dot/network/messages/block.go and dot/sync/message.go on every run (Gen.v) *)
+Example C31_consts :
+  max_resp = 128 /\ dir_asc = 0 /\ dir_desc = 1 /\ max_same = 2
+  /\ f_header = 1 /\ f_body = 2 /\ f_receipt = 4 /\ f_msgq = 8 /\ f_just = 16 /\ all_fields = 31.
+Proof. vm_compute. repeat split; reflexivity. Qed.
 
 (* ---- non-vacuity *)
 Example C31_plan_example :
